@@ -13,7 +13,8 @@ from . import lib
 def run(ctx):
     q = ctx.quick
     if ctx.replay:
-        raise lib.ToolError("re-run the check: images are regenerated from the seed")
+        ctx.regenerate()
+        q = ctx.quick
     rec = ctx.path("rec.ndjson")
     lib.harness(["c12-drive", "--n", 40 if q else 1000, "--seed", ctx.seed], stdout=rec, timeout=1800)
     recs = lib.read_ndjson(rec)
